@@ -105,6 +105,10 @@ def answerC (toks : List String) : Option String :=
     let dst ← parseHex dst; let dOff ← dOff.toNat?; let len ← len.toNat?
     let src ← parseHex src; let sOff ← sOff.toNat?
     some (showE toHex (copyBits dst dOff len src sOff))
+  | ["copyself", buf, dOff, len, sOff] => do
+    -- source and destination are regions of ONE buffer (aligned overlap is allowed by the documentation: memmove)
+    let buf ← parseHex buf; let dOff ← dOff.toNat?; let len ← len.toNat?; let sOff ← sOff.toNat?
+    some (showE toHex (copyBits buf dOff len buf sOff))
   | ["sat", size, off, len] => do
     let size ← size.toNat?; let off ← off.toNat?; let len ← len.toNat?
     some ("ok " ++ toString (saturate size off len))
